@@ -115,6 +115,10 @@ func (fv *FV) writePath(st *State, p *Path, v Term, pos token.Pos) {
 }
 
 func (fv *FV) update(st *State, cur Term, steps []PathStep, v Term, pos token.Pos) Term {
+	if fv.quietUpdate {
+		saved := fv.obls
+		defer func() { fv.obls = saved }()
+	}
 	if len(steps) == 0 {
 		if v.Sort != cur.Sort {
 			fv.abort(pos, "assignment of sort %s to location of sort %s", v.Sort.Name, cur.Sort.Name)
